@@ -128,7 +128,7 @@ def Mgen(n, A=3, E=3, seed=1):
     for s in range(n):
         for a in range(A):
             pat = pats[nxt_rand(len(pats))][:E]
-            pat = np.array(pat) / sum(pat)
+            pat = np.array(pat) / sum(pat) if sum(pat) > 0 else np.full(E, 1.0 / E)
             for e in range(E):
                 t = nxt_rand(n)
                 if unreachable is not None and t == unreachable and s != unreachable:
